@@ -108,6 +108,7 @@ def run(rep, tier, seed):
             tag = 'derived:%s%s' % (sig, '' if not al else ' alias=' + ','.join('%s=%s' % kv for kv in al.items()))
             ctx = contracts.Ctx()
             summ, _ = contracts.wrapper_summaries(wmod, ctx)
+            summ.pop(name, None)        # the routine under analysis is interpreted (or decided in kernel mode), never summarised
             try:
                 eff = harness.run_routine(wmod, name, summ, alias=al, elem={p.name: 'int' for p in ps if p.dty.startswith('ul')})
             except (Incomplete, IRError) as e:
